@@ -11,7 +11,7 @@ CHECKS = {
 }
 CHECKS["C09"] = dict(
    technique="mutation-based property testing: valid generated layouts with one injected rule violation at a generated position; oracle = CLI rejects and names a file of the offending package",
-   text="Exploration: each case is a generated valid layout (main package, imports, an import of an import, previous versions, several files) plus exactly one injected violation out of ~50 documented rules, nested inside 0-3 generated wrappers (containers, union cases, generic arguments) and placed in a generated package/file; the un-mutated control layout must be accepted, the mutated one must exit non-zero with an error naming a file of the package that contains the violation. Thousands of (rule, position) combinations per run.",
+   text="Exploration: each case is a generated valid layout (main package, imports, an import of an import, previous versions, several files) plus exactly one injected violation out of ~55 documented rules, nested inside 0-3 generated wrappers (containers, union cases, generic arguments) and placed in a generated package/file; a third of the cases with the violation in an import arrange the packages in sub-directories so that the relative path a nested package (an import of an import, the import snapshot of a previous version) uses would, taken from the top-level package directory, reach a valid decoy package of the same namespace; the un-mutated control layout must be accepted, the mutated one must exit non-zero with an error naming a file of the package that contains the violation. Thousands of (rule, position) combinations per run.",
    note="trusted: the rule table transcribed from docs/*/language.md and yardl's own messages; only 'rejected + file of the offending package named' is asserted, secondary errors are accepted",
    ref="DESIGN.md section 3 (C09)")
 CHECKS["C11"] = dict(
@@ -21,12 +21,12 @@ CHECKS["C11"] = dict(
    ref="DESIGN.md section 3 (C11)")
 CHECKS["C12"] = dict(
    technique="property-based differential testing of repeated executions (each execution = a new random Go map iteration order), oracle = byte equality of outputs/diagnostics and mtime stability",
-   text="Exploration: packages generated to have many entries in every map yardl iterates (up to 14 definitions, unions of several arities, 1-3 previous versions each with several accepted changes, or several simultaneous errors in different files) are generated N times by fresh CLI processes; exit status, stdout/stderr text and the sha256 of every generated file (C++ incl. HDF5, Python, MATLAB, JSON) must be identical across runs, and one more run into the populated tree must leave every mtime unchanged.",
-   note="N (5 quick / 12 thorough) samples of the map-order space per package; a nondeterminism needing more samples is missed",
+   text="Exploration: packages generated to have many entries in every map yardl iterates (up to 14 definitions, unions of several arities, 1-3 previous versions each with several accepted changes, an alias no version changes inside a step union that gains a case, removed protocols, or several simultaneous errors in different files) are generated N times by fresh CLI processes; exit status, stdout/stderr text and the sha256 of every generated file (C++ incl. HDF5, Python, MATLAB, JSON) must be identical across runs, and one more run into the populated tree must leave every mtime unchanged.",
+   note="N (8 quick / 20 thorough) samples of the map-order space per package; a nondeterminism needing more samples is missed",
    ref="DESIGN.md section 3 (C12)")
 CHECKS["C13"] = dict(
    technique="metamorphic property-based testing: one generated model IR emitted in two spellings, oracle = equal verdict and byte-identical generated trees / identical embedded schemas",
-   text="Exploration: a generated model is written twice - plain vs randomly respelled at every decision point (shorthand/expanded per type node, primitive alias names, [null,T], !generic, quoting, flow/block, dimension syntaxes, noise comments and blank lines), or in a random definition order and file distribution. Oracle: same accept/reject verdict (1 in 5 models carries an injected violation); pure-syntax respelling => every generated C++/Python/MATLAB file byte-identical; reorder/re-split => the schema literal of every protocol identical in the C++, Python and MATLAB output.",
+   text="Exploration: a generated model is written twice - plain vs randomly respelled at every decision point (shorthand/expanded per type node, primitive alias names, [null,T], !generic, quoting, flow/block, dimension syntaxes, noise comments and blank lines), or in a random definition order (uniform permutations, dependents-first orders, and a local type that is used only as a type argument of an imported generic placed after its user) and file distribution. Oracle: same accept/reject verdict (1 in 5 models carries an injected violation); pure-syntax respelling => every generated C++/Python/MATLAB file byte-identical; reorder/re-split => the schema literal of every protocol identical in the C++, Python and MATLAB output, and the generated Python package imports for one ordering iff it does for the other.",
    note="trusted: the harness's YAML emitter really produces equivalent spellings (validated by the generator-soundness self test); wire behaviour of re-ordered models is covered by the run-time legs",
    ref="DESIGN.md section 3 (C13)")
 CHECKS["C06"] = dict(
@@ -36,13 +36,13 @@ CHECKS["C06"] = dict(
    ref="DESIGN.md section 3 (C06)")
 CHECKS["C18"] = dict(
    technique="exhaustive enumeration of small import graphs plus random larger graphs, checked against a reference loader over the abstract graph, with a permutation (order-independence) metamorphic relation",
-   text="Exploration: all directed graphs (self-loops included) on up to 3 packages (quick) / 4 packages (thorough, 65 536 graphs) and random graphs on 5-14 packages with chains around the nesting limit, shortcuts, diamonds, cycles away from the root, namespace clashes and relative/absolute/redundant path spellings. A reference loader decides reachability, cycles, clashes and chain lengths; yardl must reject exactly when the reference does (cases with a chain of exactly the limit, or a long chain next to a shorter path, are only required to be order-independent), must list exactly the reachable namespaces once each with their own definitions in model.json, and must give the same verdict and definitions for reversed and rotated import lists.",
+   text="Exploration: all directed graphs (self-loops included) on up to 3 packages (quick) / 4 packages (thorough, 65 536 graphs) and random graphs on 5-14 packages with chains around the nesting limit, shortcuts, diamonds, cycles away from the root, namespace clashes, references to namespaces that are not imported, and relative/absolute/redundant path spellings. A reference loader decides reachability, cycles, clashes and chain lengths; yardl must reject exactly when the reference does (cases with a chain of exactly the limit, or a long chain next to a shorter path, are only required to be order-independent), must list exactly the reachable namespaces once each with their own definitions in model.json, must give the same verdict and definitions for reversed and rotated import lists, and - for graphs in which a package is reached by paths of different length (exhaustive part) and one random graph in 48 - the C++ types generated for the root must compile and the Python package import (imported types are usable from their importers).",
    note="trusted: the reference loader (60 lines) and the reading of the limit as packaging.MaxImportRecursionDepth = 10 edges",
    ref="DESIGN.md section 3 (C18)")
 RT_NOTE = "trusted: the reference codecs (harness/ref, written from docs/reference/*.md, no yardl code), the std::vector-based array header plugged in through the documented cpp.overrideArrayHeader option and the minimal date.h stand-in (xtensor/date are not installed); generator switches tied to open known findings exclude the affected shapes and count them"
 CHECKS["C01"] = dict(
    technique="property-based differential testing of generated C++ and Python binary readers/writers against an independent reference implementation of the published binary format",
-   text="Exploration: for each generated package (all type constructors, generics, imports) and several generated value sequences per protocol (edge integers around varint length changes, NaN/inf/-0.0, multi-byte UTF-8, empty containers, occasionally >64 KiB strings and long vectors, random stream block partitions) a reference-encoded stream is read by the generated binary reader and rewritten by the generated binary writer, in Python and in compiled C++; the output must decode strictly (no trailing bytes, valid block structure, same schema header) under the reference decoder to exactly the values encoded. Both ends being the reference codec, a symmetric reader/writer error cannot cancel out.",
+   text="Exploration: for each generated package (all type constructors, generics, imports) and several generated value sequences per protocol (edge integers around varint length changes, NaN/inf/-0.0, multi-byte UTF-8, empty containers, occasionally >64 KiB strings and long vectors, random stream block partitions) a reference-encoded stream is read by the generated binary reader and rewritten by the generated binary writer, in Python and in compiled C++ (every other sequence through the C++ batch overloads with a read buffer that fills up exactly where the first block of the stream ends); the output must decode strictly (no trailing bytes, valid block structure, same schema header) under the reference decoder to exactly the values encoded. Both ends being the reference codec, a symmetric reader/writer error cannot cancel out.",
    note=RT_NOTE, ref="DESIGN.md section 3 (C01)")
 CHECKS["C02"] = dict(
    technique="property-based testing of generated NDJSON writers/readers against a reference implementation of the documented JSON mapping (type-directed matcher and emitter)",
@@ -50,7 +50,7 @@ CHECKS["C02"] = dict(
    note=RT_NOTE, ref="DESIGN.md section 3 (C02)")
 CHECKS["C03"] = dict(
    technique="property-based testing over generated chains of language/format hops with a reference oracle after every hop and canonical-encoding byte equality",
-   text="Exploration: a reference-encoded stream (binary or NDJSON) is pushed through a generated chain of 2-5 hops alternating between generated C++ and Python code, each hop writing binary or NDJSON; after every hop the stream must be accepted, carry the original values, and every binary output must be byte-identical to the reference encoding of those values under its own block partition and map order (which makes the C++ and Python binary outputs byte-identical up to those two freedoms).",
+   text="Exploration: a reference-encoded stream (binary or NDJSON) is pushed through a generated chain of 2-5 hops alternating between generated C++ and Python code, each hop writing binary or NDJSON (a quarter of the cases with one stream step repeated past 70-140 kB, a third of the models with a stream of records made of fixed-width bulk data, half of the cases with Python hops that collect every stream into a list before writing it); after every hop the stream must be accepted, carry the original values, and every binary output must be byte-identical to the reference encoding of those values under its own block partition and map order (which makes the C++ and Python binary outputs byte-identical up to those two freedoms).",
    note=RT_NOTE + "; MATLAB cannot be an endpoint (no interpreter)", ref="DESIGN.md section 3 (C03)")
 CHECKS["C15"] = dict(
    technique="property-based fault injection: streams of a one-edit neighbour schema and header corruptions fed to generated readers, oracle = error before any value reaches the sink",
@@ -62,11 +62,11 @@ CHECKS["C16"] = dict(
    note=RT_NOTE, ref="DESIGN.md section 3 (C16)")
 CHECKS["C17"] = dict(
    technique="metamorphic property-based testing: the same item sequence under different block partitions, read/write batch sizes and write groupings must read back identically",
-   text="Exploration: generated packages with stream steps x item sequences whose neighbours differ in shape x 4-6 variants of (input block partition, C++ CopyTo buffer sizes selecting single-item or batch read/write overloads, Python write grouping: list / lazy generator / one by one / chunks of k, binary or NDJSON on either side); every variant must deliver exactly the items written, in order (checked against the reference decoder / mapping).",
+   text="Exploration: generated packages with stream steps x item sequences whose neighbours differ in shape x 4-6 variants of (input block partition, C++ CopyTo buffer sizes selecting single-item or batch read/write overloads, Python write grouping: list / lazy generator / one by one / chunks of k, binary or NDJSON on either side; C++ buffer sizes are also drawn from the sizes of the first blocks at hand; a quarter of the cases repeat one stream step past 70-200 kB, 45% of the models have a stream of records made of fixed-width bulk data); every variant must deliver exactly the items written, in order (checked against the reference decoder / mapping).",
    note=RT_NOTE, ref="DESIGN.md section 3 (C17)")
 CHECKS["C08"] = dict(
    technique="property-based testing with identifier-hostile model generation and option-set generation; oracle = generated code compiles/imports in the real tool chains",
-   text="Exploration: accepted generated packages whose type/field/step/enum-symbol/union-tag/dimension/computed-field/namespace names are drawn from target-language reserved words and generated-helper names (pools pre-screened one position at a time by an exhaustive 898-pair sweep), near-colliding names, hostile documentation comments, x generated option sets, plus `yardl init <name>` scaffolds. Oracle: validate exit 0 => generate exit 0 without panic; generated Python byte-compiles and imports; generated C++ passes g++ -std=c++17 -fsyntax-only; no duplicate attribute in a generated Python class; no case-insensitive MATLAB file collision.",
+   text="Exploration: accepted generated packages whose type/field/step/enum-symbol/union-tag/dimension/computed-field/namespace names are drawn from target-language reserved words and generated-helper names (pools pre-screened one position at a time by an exhaustive sweep; a quarter of the cases are samples of that sweep with one word at ten positions at once, incl. !switch variables over optional, union and plain targets, all targets generated and compiled), near-colliding names, definitions in shuffled order incl. a local type used only as argument of an imported generic, hostile documentation comments, x generated option sets, plus `yardl init <name>` scaffolds. Oracle: validate exit 0 => generate exit 0 without panic; generated Python byte-compiles and imports; generated C++ passes g++ -std=c++17 -fsyntax-only; no duplicate attribute in a generated Python class; no case-insensitive MATLAB file collision.",
    note="trusted: g++ 12 / python3-vt as the judges of well-formedness; C++ is compiled only with the harness's array header (documented overrideArrayHeader), HDF5 sources and MATLAB code are generated but not compiled/run (no HDF5, no MATLAB)",
    ref="DESIGN.md section 3 (C08)")
 CHECKS["C04"] = dict(
@@ -96,7 +96,7 @@ CHECKS["C19"] = dict(
    ref="DESIGN.md section 3 (C19)")
 CHECKS["C05"] = dict(
    technique="model-based property testing of version chains: generated models evolved by documented edits, reference encoder/decoder and a three-valued documented-conversion function as oracle against the compiled generated C++ reader/writer",
-   text="Exploration: chains M0 -> M1 (-> M2) of generated models, each step 1-2 compatible or partially compatible edits of docs/cpp/evolution.md at generated positions; the newest package lists every predecessor and is compiled (g++) with a driver that can construct the writer with Version::<label>. Read direction: reference-encoded streams of generated values of every old version -> current reader -> current writer -> reference decoder = documented conversion. Write direction: current values -> writer targeting each old version -> must decode under the old model, carry the old schema in its header and equal the documented conversion. Chains yardl rejects are discarded and counted; the conversion oracle (harness/ref/evolve.go, written from the document) returns exact value / must raise (a value with no counterpart in the target version: integer out of range, text that is not a number, union case that does not exist there) / not documented; the first two are judged.",
+   text="Exploration: chains M0 -> M1 (-> M2) of generated models, each step 1-2 compatible or partially compatible edits of docs/cpp/evolution.md at generated positions (numeric changes also two levels deep inside optionals and vectors, `size` as source and target; 30% of the protocol steps are drawn from the number/optional/vector shapes that conversions have dedicated code for); the newest package lists every predecessor and is compiled (g++) with a driver that can construct the writer with Version::<label>. Read direction: reference-encoded streams of generated values of every old version -> current reader -> current writer -> reference decoder = documented conversion. Write direction: current values -> writer targeting each old version -> must decode under the old model, carry the old schema in its header and equal the documented conversion. Chains yardl rejects are discarded and counted; the conversion oracle (harness/ref/evolve.go, written from the document) returns exact value / must raise (a value with no counterpart in the target version: integer out of range, text that is not a number, union case that does not exist there) / not documented; the first two are judged.",
    note="trusted: the harness's reference binary codec (itself cross-checked against the generated code by C01) and its transcription of the conversion table in docs/cpp/evolution.md; C++ binary only (the only combination for which evolution is documented); NaN/inf floats, rounding and number->string text are not judged",
    ref="DESIGN.md section 3 (C05)")
 NOT_YET = {}
